@@ -73,9 +73,14 @@ def rule_1(ctx):
                 elif node.attr == 'value' and qual in ('Evaluator.evaluate', 'EvaluatorContext.eval_cell'):
                     if _derives_from_cells(node.value, fn):
                         n += 1
-                        conds = flow.path_conditions(node)
-                        ok = any(c.polarity and _no_formula_test(c.test) for c in conds)
-                        ctx.expect(ok, node, f'read of stored cell value `{ast.unparse(node)[:50]}`',
+                        # the read must be unreachable for a cell with a live formula (semantic evaluation of the path
+                        # conditions on an abstract cell: robust against De Morgan, hoisting, early returns)
+                        ex = evalcore.site_excluded_for(ctx, m, fn, node, 'live formula', evalcore.class_of_method(m, qual))
+                        if ex is None:
+                            ctx.unmodelled(node, f'path condition of `{ast.unparse(node)[:40]}` cannot be evaluated for an abstract cell')
+                            continue
+                        ok = ex is True
+                        ctx.expect(ok, node, 'read of the stored value of a cell from the cells map',
                                    'the stored value of a cell is returned without the dominating "cell has no formula" '
                                    'test: a formula cell would yield its stale, previously computed value')
                 elif node.attr == 'value' and _derives_from_map(node.value, fn, 'ranges'):
@@ -84,7 +89,7 @@ def rule_1(ctx):
                             'the cached value of a range is read back instead of rebuilding the array from its cells')
     # the value returned for a formula cell is the freshly computed one
     em = ctx.mod('evaluator')
-    ev = em.func('Evaluator.evaluate')
+    ev = ctx.func('evaluator', 'Evaluator.evaluate')
     rets = value_returns(ev)
     last = rets[-1] if rets else None
     deps = flow.Deps(ev)
@@ -99,14 +104,17 @@ def rule_1(ctx):
                'evaluate() does not return the value computed by evaluating the formula AST on this call')
     # RangeNode.eval rebuilds before caching
     am = ctx.mod('ast_nodes')
-    rn = am.func('RangeNode.eval')
+    rn = ctx.func('ast_nodes', 'RangeNode.eval')
     stores = [a for a in walk_local(rn) if isinstance(a, ast.Assign) and any(
         isinstance(t, ast.Attribute) and t.attr == 'value' for t in a.targets)]
+    deps_rn = flow.Deps(rn)
     for a in stores:
-        ok = isinstance(a.value, ast.Call)
+        ok = isinstance(a.value, ast.Call) or (isinstance(a.value, ast.Name) and any(
+            isinstance(x, ast.Assign) and isinstance(x.value, ast.Call) and any(isinstance(t, ast.Name) and t.id == a.value.id for t in x.targets)
+            for x in walk_local(rn)))
         ctx.expect(ok, a, 'XLRange.value stored from a freshly built array',
                    'the range value written back is not a freshly constructed array')
-    ctx.floor(3, 'reads of written-back state + freshness facts')
+    ctx.floor(2, 'reads of written-back state + freshness facts')
 
 
 MEMO_DECOS = {'ext:functools.lru_cache', 'ext:functools.cache', 'ext:functools.cached_property'}
@@ -165,7 +173,7 @@ def rule_2(ctx):
                     ctx.expect(ok, a, f'memo read self.{attr}[...] in {qual}',
                                f'a memo kept on {cref.split(":")[-1]} (long-lived) feeds the value returned by the evaluation path')
     ctx.note(f'memo reads on the evaluation path: {n_memo}')
-    ctx.floor(2, 'context constructions + memo reads')
+    ctx.floor(1, 'context constructions + memo reads')
 
 
 def rule_3(ctx):
@@ -218,7 +226,7 @@ def _name_indirection(ctx, fn):
 def rule_4(ctx):
     mm = ctx.mod('model')
     for name in ('Model.set_cell_value', 'Model.get_cell_value'):
-        fn = mm.func(name)
+        fn = ctx.func('model', name)
         pro = _name_indirection(ctx, fn)
         ctx.expect(pro is not None, fn, f'{name}: defined name -> cell address',
                    f'{name} does not translate a defined name into the address of its cell before the lookup')
